@@ -13,7 +13,7 @@ Three things live here (core Lean only, the driver links against this file):
 * `build` — the **model of the code as written**: it follows, call by call, what the frontend does
   when the same program text is compiled against gatery:
   `ConditionalScope`'s constructors / destructor (`frontend/ConditionalScope.cpp:39-145`: thread-local
-  `m_lastCondition`, `m_lastConditionOnEntry`, `m_combinedelseChainConditon`, `s_nextId`,
+  `m_lastCondition`, `m_lastConditionOnEntry`, `m_combinedelseChainConditon`, `s_nextId` (incl. the destructor's `s_nextId != m_id + 1` test),
   `m_fullCondition = condition ∧ parent.m_fullCondition`), `ElementarySignal::m_initialScopeId`
   (`frontend/Signal.cpp:66-70`), `Bit::assign` / `BaseBitVector::assign`
   (`frontend/Bit.cpp:276-297`, `frontend/BitVector.cpp:398-462`: the `scope->getId() > m_initialScopeId`
@@ -284,9 +284,6 @@ structure BState where
   lastCond : Option Nat
   /-- thread-local `ConditionalScope::s_nextId` -/
   nextId : Nat
-  /-- ghost (no influence on anything else): an `ELSE IF` destructor took the "nothing closed inside me" branch
-      although its inner `IF` had closed (`m_lastConditionOnEntry == m_lastCondition` by port identity) -/
-  clash : Bool
   deriving Repr, Inhabited
 
 def curScopeId (B : BState) : Nat := (B.scopes.head?.map (·.id)).getD 0
@@ -429,7 +426,9 @@ def popScope (B : BState) (nsigs : Nat) : Option BState :=
       | none =>
           match s.onEntry, B.lastCond with
           | some l, some lc =>
-              if lc ≠ l then
+              -- `m_lastConditionOnEntry && s_nextId != m_id + 1`: a scope was opened (and closed) inside this ELSE
+              -- (until commit ac19c14 the test compared ports: `m_lastConditionOnEntry != m_lastCondition`, see C05/Historical.lean)
+              if B.nextId ≠ s.id + 1 then
                 -- "special case for ELSEIF to catch the condition of the IF scope in the ELSE dtor"
                 let (ns, o) := mkNode B.nodes (.or lc l)
                 some { B with nodes := ns, lastCond := some o }
@@ -513,11 +512,6 @@ def openElseIf (B : BState) (c : Expr) : Option BState := do
     some (pushScope { B with nodes := ns } an none (some o))
   else none
 
-/-- what the ghost flag records when the two scopes of an `ELSE IF` close: `B4` = state after the inner `IF` closed,
-    `l` = `m_lastConditionOnEntry` of the `ELSE` scope -/
-def noteClash (l : Nat) (B4 B5 : BState) : BState :=
-  if B4.lastCond = some l then { B5 with clash := true } else B5
-
 /--
 The frontend executing the program text. `none` = the frontend throws / the program is outside what the model covers
 (type or width mismatch, slice out of bounds, `ELSE` with a null `m_lastCondition`, `UIntDefault`, unconditional overwrite of a
@@ -557,13 +551,13 @@ def build : Prog → BState → Option BState
       let B3 ← build body B2
       let B4 ← popScope B3 B.sigs.length
       let B5 ← popScope B4 B.sigs.length
-      build k (noteClash l B4 B5)
+      build k B5
 
 /-- the design before the first statement: one input pin per entry of `ins`, each read into a variable (`UInt v = pinIn(w)`) -/
 def initState (ins : List Ty) : BState :=
   { nodes := ((List.range ins.length).map Node.input).toArray,
     sigs := (List.range ins.length).zipWith (fun i ty => { ty := ty, driver := i, initScope := 0 }) ins,
-    scopes := [], lastCond := none, nextId := 1, clash := false }
+    scopes := [], lastCond := none, nextId := 1 }
 
 /-- input valuations of the right shape -/
 def typedEnv (tys : List Ty) (env : List Val) : Prop := env.map List.length = tys.map Ty.width
